@@ -14,7 +14,7 @@ CONSTANTS
  BufCap = 2
  DThreads = {1, 2}
  MaxBytes = 5
- Defect = "valueTwice"
+ Defect = "runExpired"
  MCOps <- OpsAll
  MCSetImpl <- ToDX
  MCSetIds <- IdsQU
@@ -27,5 +27,5 @@ CONSTANTS
  MaxAdds = 4
  MCIds <- IdsP
  MCNames <- NamesAll
-INVARIANTS DeliverOnce
+INVARIANTS OneEffectiveRun
 CHECK_DEADLOCK FALSE
